@@ -147,7 +147,8 @@ class Interp:
         self.ppg = LAB.PPG3204()
         self.ppg.inst = FakeInst()
         self.dry = LAB.PPG3204()
-        self.stats = {"oor": 0, "bigdata": 0, "steps": 0, "cmds": 0}
+        self.stats = {"oor": 0, "bigdata": 0, "steps": 0, "cmds": 0, "derived": 0}
+        self.prev_bits = None
 
     def run(self, fn_name, *a, **k):
         """call on the instrumented driver (recording warnings + new commands) and on the dry-run twin (capturing stdout)"""
@@ -282,6 +283,18 @@ class Interp:
             arg = np.repeat(bits, 3)[::3]            # a non-contiguous 1-D view holding the same bits
         else:
             bits = rs.randint(0, 2, n).astype(np.uint8)
+            if s.get("derive") and self.prev_bits is not None:
+                # a frame related to the one uploaded just before on this driver object: the same bits zero-padded by 1..7 cells, cut by 1..7
+                # cells, with the last cell flipped, or identical (re-upload at possibly another address) - whatever the driver remembers of the
+                # previous transfer, the cells written are those of THIS frame
+                k_ = 1 + s["seed"] % 7
+                base_ = self.prev_bits
+                bits = {"zero-ext": np.concatenate([base_, np.zeros(k_, np.uint8)]), "cut": base_[:max(1, base_.size - k_)].copy(),
+                        "flip-last": np.concatenate([base_[:-1], 1 - base_[-1:]]), "same": base_.copy()}[s["derive"]]
+                n = int(bits.size)
+                addr = min(addr, MEM - n + 1)          # (stay inside the pattern memory, as the un-derived requests do by construction)
+                self.stats["derived"] += 1
+            self.prev_bits = bits.copy()
             bits2 = np.tile(bits, (len(chs), 1))
             arg = {"str": "".join(map(str, bits)), "list": bits.tolist(), "array": bits, "bool": bits.astype(bool)}[s["form"]]
         _, new, w = self.run("set_data", arg, addr, s["chs"])
@@ -326,7 +339,7 @@ class Interp:
 
     def info(self):
         st_ = self.stats
-        return {"nontrivial": st_["oor"] >= 1 or st_["bigdata"] >= 1, "classes": [f"oor{min(st_['oor'], 4)}", f"bigdata{min(st_['bigdata'], 3)}", f"steps{min(st_['steps'] // 5 * 5, 30)}"]}
+        return {"nontrivial": st_["oor"] >= 1 or st_["bigdata"] >= 1, "classes": [f"oor{min(st_['oor'], 4)}", f"bigdata{min(st_['bigdata'], 3)}", f"derived-frames{min(st_['derived'], 3)}", f"steps{min(st_['steps'] // 5 * 5, 30)}"]}
 
 
 def eval_history(case):
@@ -378,7 +391,8 @@ s_mode = st.fixed_dictionaries({"op": st.just("mode"), "v": st.sampled_from(["da
 s_outp = st.fixed_dictionaries({"op": st.just("outputs"), "v": st.booleans(), "chs": s_ch})
 s_n = st.one_of(st.integers(1, 64), st.sampled_from([1023, 1024, 1025, 2047, 2048, 2049, 3071, 3072, 3073, 4096, 10000]), st.integers(1, 10000))
 s_data = st.fixed_dictionaries({"op": st.just("data"), "n": s_n, "addr": st.one_of(st.just(1), st.integers(1, 5000), st.integers(1, MEM - 10000)), "seed": st.integers(0, 2 ** 31 - 1),
-                                "form": st.sampled_from(["str", "list", "array", "bool", "2d", "2d-F", "2d-T", "2d-bool", "strided"]), "chs": st.one_of(st.none(), st.integers(1, 4), st.lists(st.integers(1, 4), min_size=1, max_size=4, unique=True))})
+                                "derive": st.sampled_from([None, None, None, "zero-ext", "zero-ext", "cut", "flip-last", "same"]),
+                                "form": st.sampled_from(["str", "list", "array", "bool", "str", "list", "array", "bool", "2d", "2d-F", "2d-T", "2d-bool", "strided"]), "chs": st.one_of(st.none(), st.integers(1, 4), st.lists(st.integers(1, 4), min_size=1, max_size=4, unique=True))})
 s_cfg = st.fixed_dictionaries({"op": st.just("config"), "via": st.sampled_from(["config", "call"]), "kw": st.fixed_dictionaries({
     "freq": st.one_of(st.none(), around(*LIM["freq"])), "patt_len": st.one_of(st.none(), around(*LIM["plen"], integer=True)), "Vout": st.one_of(st.none(), around(*LIM["amp"])),
     "offset": st.one_of(st.none(), around(*LIM["off"])), "skew": st.one_of(st.none(), around(*LIM["skew"])), "mode": st.one_of(st.none(), st.sampled_from(["DATA", "PRBS"])),
